@@ -22,7 +22,8 @@ def sh(cmd, **k):
 
 
 def run_demo(demo, pid):
-    src = open(demo).read().replace('/tmp/seed/%s' % pid, WT)
+    src = open(demo).read().replace('/tmp/seed2/%s' % pid, WT).replace(
+        '/tmp/seed/%s' % pid, WT)
     tmp = '/tmp/evalseed_demo_%d.py' % os.getpid()
     open(tmp, 'w').write(src)
     is_pytest = bool(re.search(r'^def test_|^class Test', src, re.M)) and \
